@@ -283,7 +283,7 @@ type skipQuotedObj struct{}
 func (x *skipQuotedObj) call(buf []byte, offs int) (int, sipsp.ErrorHdr) {
 	return sipsp.SkipQuoted(buf, offs)
 }
-func (x *skipQuotedObj) obs(o *ob, buf []byte) { o.b = append(o.b, "{}"...) }
+func (x *skipQuotedObj) obs(o *ob, buf []byte) { o.b = append(o.b, `{"dummy":0}`...) }
 func (x *skipQuotedObj) reset()                {}
 func (x *skipQuotedObj) raw() interface{}      { return x }
 
